@@ -5,6 +5,8 @@ package snaps
 import (
 	"encoding/json"
 	"fmt"
+	"os"
+	"path/filepath"
 	"strings"
 	"time"
 
@@ -19,13 +21,14 @@ import (
 // -count does). Successor = replay of the history on a fresh world + 1 op.
 
 type c03Op struct {
-	Op   string `json:"op"` // call | end
-	Test string `json:"test"`
-	Val  string `json:"val,omitempty"`
-	Upd  bool   `json:"upd,omitempty"`
-	File string `json:"file,omitempty"` // Filename option, "" = f
-	API  string `json:"api,omitempty"`  // "" = snap | json | yaml
-	Bad  string `json:"bad,omitempty"`  // "" | invalid (Val is not a document) | matcher (a matcher on a missing path)
+	Op       string `json:"op"` // call | end
+	Test     string `json:"test"`
+	Val      string `json:"val,omitempty"`
+	Upd      bool   `json:"upd,omitempty"`
+	File     string `json:"file,omitempty"`     // Filename option, "" = f
+	API      string `json:"api,omitempty"`      // "" = snap | json | yaml
+	Bad      string `json:"bad,omitempty"`      // "" | invalid (Val is not a document) | matcher (a matcher on a missing path)
+	NoCreate bool   `json:"nocreate,omitempty"` // Update(false): a missing slot may not be created
 }
 
 type c03Case struct {
@@ -49,6 +52,9 @@ func (o c03Op) String() string {
 	}
 	if o.Bad != "" {
 		u += ",rejected:" + o.Bad
+	}
+	if o.NoCreate {
+		u += ",Update(false)"
 	}
 	return fmt.Sprintf("Call(%s,%q%s)", o.Test, vfClip(o.Val), u)
 }
@@ -89,6 +95,9 @@ func c03Apply(c *vfCtx, cs c03Case, checkFrom int) (key uint64, ok bool) {
 		}
 		if op.Upd {
 			cl.Upd = "true"
+		}
+		if op.NoCreate {
+			cl.Upd = "false"
 		}
 		mk := t.mark()
 		var want, slot, id string
@@ -376,6 +385,56 @@ func c03BigFile(emit func(c03Case)) {
 	emit(c03Case{Ops: ops})
 }
 
+// c03NoCreate: calls on MISSING slots while creation is not allowed (Update(false)) fail and still consume their ordinal.
+func c03NoCreate(emit func(c03Case)) {
+	nc := func(t, v string) c03Op { return c03Op{Op: "call", Test: t, Val: v, NoCreate: true} }
+	cl := func(t, v string) c03Op { return c03Op{Op: "call", Test: t, Val: v} }
+	end := func(t string) c03Op { return c03Op{Op: "end", Test: t} }
+	for _, other := range []string{"TestAB", "TestA/s"} {
+		emit(c03Case{Ops: []c03Op{nc("TestA", "a"), cl("TestA", "b"), cl(other, "o"), nc("TestA", "c"), cl("TestA", "d"), end("TestA"), end(other),
+			nc("TestA", "a"), cl("TestA", "b"), cl(other, "o"), nc("TestA", "c"), cl("TestA", "d"), end("TestA"),
+			cl("TestA", "a"), cl("TestA", "b"), cl("TestA", "c"), cl("TestA", "d")}})
+	}
+	emit(c03Case{Pre: []vfEntry{{ID: "TestA - 3", Body: "three"}}, Ops: []c03Op{cl("TestA", "one"), nc("TestA", "missing two"), cl("TestA", "three"), end("TestA"), cl("TestA", "one"), nc("TestA", "x"), cl("TestA", "three")}})
+}
+
+// c03Truncated: a file whose last entry lost its terminator (truncated). Whatever becomes of THAT entry, looking it up must not
+// change what the intact slots of other tests replay as - neither in the file nor through anything the library keeps in memory.
+func c03Truncated(c *vfCtx) {
+	dir := c.newWorld()
+	vfResetState(false, "", true)
+	intact := []vfEntry{{ID: "TestA - 1", Body: "a"}, {ID: "TestB - 1", Body: "b1\nb2"}, {ID: "TestA - 2", Body: "a2"}}
+	raw := string(vfRender(intact)) + "\n[TestT - 1]\nleftover line 1\nleftover line 2\n"
+	os.WriteFile(filepath.Join(dir, "f.snap"), []byte(raw), 0o644)
+	cfg := WithConfig(Dir(dir), Filename("f"), Update(false))
+	tt := &vfT{name: "TestT"}
+	cfg.MatchSnapshot(tt, "leftover line 1\nleftover line 2") // outcome not judged
+	for _, e := range intact {
+		name, _, _ := vfSplitID(e.ID)
+		_ = name
+	}
+	ta, tb := &vfT{name: "TestA"}, &vfT{name: "TestB"}
+	steps := []struct {
+		t *vfT
+		v string
+	}{{ta, "a"}, {tb, "b1\nb2"}, {ta, "a2"}}
+	for i, st := range steps {
+		mk := st.t.mark()
+		cfg.MatchSnapshot(st.t, st.v)
+		c.count("transitions", 1)
+		if got := st.t.outcome(mk); got != "pass" {
+			c.violation("", fmt.Sprintf("a truncated last entry [TestT - 1] was looked up; afterwards the intact slot addressed by call %d (%q in %s) signals %s: %v", i+1, st.v, st.t.name, got, st.t.errs), map[string]any{"family": "truncated"})
+			return
+		}
+	}
+	tt.end()
+	ta.end()
+	tb.end()
+	c.count("evaluations", 1)
+	c.count("traces", 1)
+	c.addSet("states", vfHashDir(vfSnapDir(dir)))
+}
+
 // c03TwoFiles: one test alternating between two snapshot files, executed three times.
 func c03TwoFiles(emit func(c03Case)) {
 	for _, pattern := range [][]string{{"", "g"}, {"g", ""}, {"", "g", "g", ""}, {"", "", "g", "g", "g"}, {"g", "g", ""}} {
@@ -461,12 +520,16 @@ func init() {
 			"every transition executed on the real code and compared with the model (outcome, addressed slot, parse(disk)); plus linear families with 10..12 ordinals; " +
 			"non-trivial = distinct histories with two tests, an End, an update or a special value"
 		c03BFS(c)
+		if c.shard == 0 {
+			c03Truncated(c)
+		}
 		lin := func(emit func(c03Case)) {
 			c03Linear(c, emit)
 			c03TwoFiles(emit)
 			c03Shadow(emit)
 			c03Failing(emit)
 			c03BigFile(emit)
+			c03NoCreate(emit)
 		}
 		lin(func(cs c03Case) {
 			if !c.mine() {
